@@ -245,6 +245,10 @@ func (w *world) byzOp() int {
 		desc += d
 	}
 	raw := w.space.SignData(author, data, w.cons.Head().Id)
+	w.r.Fault("byzantine-record") // a participant bypasses the client-side builder
+	if n > 1 {
+		w.r.Fault("byzantine-multi-content-record")
+	}
 	k, err := w.submit(author, raw, "byz:"+desc)
 	if err != nil {
 		w.r.Event("byz-rejected", "%s: %s: %v", author.Name, desc, errShort(err))
